@@ -93,29 +93,66 @@ func (c *Ctx) localizeFallback(rule string) {
 	r := c.R
 	fn := c.P.Func("(*ab.Authboss).Localizef")
 	name := FuncName(fn)
-	nLoc, nDef := 0, 0
-	for _, b := range fn.Blocks {
-		ret, ok := b.Instrs[len(b.Instrs)-1].(*ssa.Return)
+	isLoc := func(v ssa.Value) bool {
+		call, _ := CallOf(v)
+		return call != nil && call.Common().IsInvoke() && call.Common().Method.Name() == "Localizef"
+	}
+	isDef := func(v ssa.Value) bool {
+		call, _ := CallOf(v)
+		return call != nil && Callee(call) == "fmt.Sprintf"
+	}
+	// what each way of arriving at a return hands back: the formatted default
+	// text, or the translation where a test on the way found it non-empty (the
+	// returned value may be a merged one: single-exit style with a named result)
+	why := ""
+	var at ssa.Instruction
+	q := PathQuery{StartBlock: fn.Blocks[0], GoalP: func(in ssa.Instruction, pv PathView) bool {
+		ret, ok := in.(*ssa.Return)
 		if !ok || len(ret.Results) != 1 {
-			continue
+			return false
+		}
+		if !pv.Precise() {
+			return true
 		}
 		v := ret.Results[0]
-		call, _ := CallOf(v)
+		rv := pv.Resolve(v)
 		switch {
-		case call != nil && call.Common().IsInvoke() && call.Common().Method.Name() == "Localizef":
-			nLoc++
-			ok := HasFact(FactsAtInstr(ret), func(f Fact) bool { return f.SaysNonEmpty(v) })
-			r.Check(ok, rule, name, "translated text returned only when non-empty", posf(c, ret), "empty translations fall back to the default text", "the Localizer's answer is returned even when it is empty: with a partial catalogue \"invalid code\" and \"success\" are both \"\", and totp2fa, which compares these texts, accepts any code (remove, validate)")
-		case call != nil && Callee(call) == "fmt.Sprintf":
+		case isDef(rv):
+			return false
+		case isLoc(rv):
+			ok := pv.PathFact(func(f Fact) bool {
+				s := f.NonEmptySubject()
+				return s != nil && (s == rv || s == v || pv.Resolve(s) == rv)
+			})
+			if !ok {
+				why, at = "the Localizer's answer is returned even when it is empty: with a partial catalogue \"invalid code\" and \"success\" are both \"\", and totp2fa, which compares these texts, accepts any code (remove, validate)", ret
+			}
+			return !ok
+		}
+		why, at = "returns neither the translation nor the formatted default text", ret
+		return true
+	}}
+	if p := q.Find(); p != nil {
+		if why == "" {
+			why = "a return hands back something other than a non-empty translation or the formatted default text"
+		}
+		pos := c.P.Pos(fn.Pos())
+		if at != nil {
+			pos = posf(c, at)
+		}
+		r.Bad(rule, name, "what Localizef returns", pos, why, c.P.DescribePath(p)...)
+	} else {
+		r.Ok(rule, name, "what Localizef returns", c.P.Pos(fn.Pos()), "every return hands back a non-empty translation or the formatted default text")
+	}
+	nDef := 0
+	for _, call := range Calls(fn) {
+		if Callee(call) == "fmt.Sprintf" {
 			nDef++
-		default:
-			r.Bad(rule, name, "return", posf(c, ret), "returns neither the translation nor the formatted default text")
 		}
 	}
 	if nDef == 0 {
 		r.Bad(rule, name, "default text", c.P.Pos(fn.Pos()), "the key's default text is never returned")
 	}
-	_ = nLoc
 }
 
 // verdictNotAnError: in the login handlers, the error a credential checker
@@ -854,7 +891,7 @@ func (c *Ctx) lockedResponseFixed(rule string) {
 					seen[v] = true
 					switch x := v.(type) {
 					case *ssa.Parameter:
-						if len(uls.Params) > 0 && v == ssa.Value(uls.Params[len(uls.Params)-1]) && isBoolType(v.Type()) {
+						if len(uls.Params) > 0 && v == ssa.Value(uls.Params[len(uls.Params)-1]) && (isBoolType(v.Type()) || c.lockModeOf(uls) != nil) {
 							bad = append(bad, "the password outcome")
 						}
 					case *ssa.Call:
@@ -1559,5 +1596,299 @@ func (c *Ctx) oauthRememberLiteral(rule string) {
 	}
 	if n == 0 {
 		r.Info(rule, FuncName(end), "ctx[values]", "-", "the callback does not carry a remember-me wish")
+	}
+}
+
+// recoverStartQuiet: EventRecoverStart fires only when the account exists.
+// A library handler on it that answers the request (or reports it handled)
+// makes the response to a recovery request depend on the account's existence.
+func (c *Ctx) recoverStartQuiet(rule string) {
+	r := c.R
+	ev := c.Event("EventRecoverStart")
+	n := 0
+	for _, w := range c.wiring {
+		if !w.Const || w.Event != ev {
+			continue
+		}
+		n++
+		phase := map[bool]string{true: "Before", false: "After"}[w.Before]
+		construct := phase + "(EventRecoverStart)->" + w.Name
+		pos := posf(c, w.Call)
+		if w.Handler == nil {
+			r.Unknown(rule, FuncName(w.In), construct, pos, "handler body not resolved")
+			continue
+		}
+		var bad ssa.Instruction
+		why := ""
+		seen := map[*ssa.Function]bool{}
+		var walk func(f *ssa.Function, d int)
+		walk = func(f *ssa.Function, d int) {
+			if f == nil || seen[f] || d > 4 || bad != nil {
+				return
+			}
+			seen[f] = true
+			for _, b := range f.Blocks {
+				for _, in := range b.Instrs {
+					if bad != nil {
+						return
+					}
+					if c.clientVisible(in) {
+						bad, why = in, "answers the request or changes client state"
+						return
+					}
+					if call, ok := in.(ssa.CallInstruction); ok {
+						if g := StaticCallee(call); g != nil && c.inRepo(g) {
+							walk(g, d+1)
+						}
+					}
+					if ret, ok := in.(*ssa.Return); ok && f == w.Handler && len(ret.Results) == 2 {
+						v := ret.Results[0]
+						if b, isC := ConstBool(v); isC && !b {
+							continue
+						}
+						if p, isP := v.(*ssa.Parameter); isP && p.Name() == "handled" {
+							continue
+						}
+						bad, why = in, "can report the request handled"
+					}
+				}
+			}
+		}
+		walk(w.Handler, 0)
+		if bad != nil {
+			r.Bad(rule, FuncName(w.In), construct, pos, "a handler registered on the event that fires only for existing accounts "+why+" ("+posf(c, bad)+"): the response to a recovery request tells whether the account exists")
+		} else {
+			r.Ok(rule, FuncName(w.In), construct, pos, "handler neither answers the request nor touches client state")
+		}
+	}
+	if n == 0 {
+		r.Ok(rule, "ab", "handlers of EventRecoverStart", "-", "no library handler is registered on the event that fires only for existing accounts")
+	}
+}
+
+// registryStable: the handler registry of an instance is created once, by the
+// constructor, and afterwards only grows (Before/After append). A later
+// replacement of Authboss.Events, or of the maps inside it, silently drops the
+// vetoes, hijacks and revocation hooks the modules registered.
+func (c *Ctx) registryStable(rule string) {
+	r := c.R
+	n := 0
+	fresh := func(v ssa.Value) bool {
+		for d := 0; d < 6; d++ {
+			switch x := v.(type) {
+			case *ssa.FieldAddr:
+				v = x.X
+				continue
+			case *ssa.Alloc:
+				return true
+			case *ssa.Phi:
+				return false
+			}
+			break
+		}
+		return false
+	}
+	for _, fn := range c.P.Funcs {
+		if !c.inRepo(fn) {
+			continue
+		}
+		for _, b := range fn.Blocks {
+			for _, in := range b.Instrs {
+				// entries of the handler maps: appended to, never replaced or deleted
+				regMap := func(v ssa.Value) bool {
+					u, ok := v.(*ssa.UnOp)
+					if !ok {
+						return false
+					}
+					fa, ok := u.X.(*ssa.FieldAddr)
+					return ok && strings.HasSuffix(fa.X.Type().String(), "v3.Events") && (fieldName(fa) == "before" || fieldName(fa) == "after")
+				}
+				if mu, ok := in.(*ssa.MapUpdate); ok && regMap(mu.Map) {
+					n++
+					okApp := false
+					if ac, _ := CallOf(mu.Value); ac != nil {
+						if bi, isB := ac.Common().Value.(*ssa.Builtin); isB && bi.Name() == "append" {
+							var old func(v ssa.Value, d int) bool
+							old = func(v ssa.Value, d int) bool {
+								switch x := v.(type) {
+								case *ssa.Lookup:
+									return regMap(x.X)
+								case *ssa.Extract:
+									return d < 4 && old(x.Tuple, d+1)
+								case *ssa.Phi:
+									for _, e := range x.Edges {
+										if d > 4 || !old(e, d+1) {
+											return false
+										}
+									}
+									return len(x.Edges) > 0
+								}
+								return false
+							}
+							okApp = old(Arg(ac, 0), 0)
+						}
+					}
+					r.Check(okApp, rule, FuncName(fn), "handler list update", posf(c, mu), "the event's handler list is its old value with the new handler appended", "an event's handler list is overwritten with something other than append(<its old value>, …): handlers registered earlier are dropped")
+					continue
+				}
+				if call, ok := in.(ssa.CallInstruction); ok {
+					if bi, isB := call.Common().Value.(*ssa.Builtin); isB && (bi.Name() == "delete" || bi.Name() == "clear") && len(call.Common().Args) > 0 && regMap(call.Common().Args[0]) {
+						n++
+						r.Bad(rule, FuncName(fn), "handler list removal", posf(c, call), "registered handlers of an event are removed from the registry")
+					}
+					continue
+				}
+				st, ok := in.(*ssa.Store)
+				if !ok {
+					continue
+				}
+				fa, ok := st.Addr.(*ssa.FieldAddr)
+				if !ok {
+					continue
+				}
+				owner := fa.X.Type().String()
+				fname := fieldName(fa)
+				isReg := (strings.HasSuffix(owner, "v3.Authboss") && fname == "Events") ||
+					(strings.HasSuffix(owner, "v3.Events") && (fname == "before" || fname == "after"))
+				if !isReg {
+					continue
+				}
+				n++
+				name := FuncName(fn)
+				if fresh(fa.X) {
+					r.Ok(rule, name, "store "+fname, posf(c, st), "initialises a freshly allocated object")
+					continue
+				}
+				// growing the registry: the value stored derives from the old one (append / map with the old entries)
+				grows := false
+				if fname != "Events" {
+					grows = HasOrigin(c.rawOrigins(st.Val), func(o Origin) bool { return o.Kind == "field" && strings.HasSuffix(o.Name, fname) })
+				}
+				r.Check(grows, rule, name, "store "+fname, posf(c, st), "the registry only grows", "the event registry of a live instance is replaced ("+fname+" = "+SafeString(st.Val)+"): handlers the modules registered earlier — lock and confirm vetoes, the 2FA hijack, remember-token revocation — are silently dropped while their routes stay mounted")
+			}
+		}
+	}
+	if n == 0 {
+		r.Unknown(rule, "ab", "registry initialisation", "-", "no initialisation of Authboss.Events found")
+	}
+}
+
+// flushSites: the queued client-state changes are released by the response
+// writer's own methods only — when a handler writes. A flush anywhere else
+// (after the handler returned, in a middleware) also releases what a request
+// queued before it failed: with the silent default error handler a failed
+// login would still deliver its session.
+func (c *Ctx) flushSites(rule string) {
+	r := c.R
+	put := c.flushFunc()
+	n := 0
+	for _, call := range c.Callers(put) {
+		n++
+		fn := call.Parent()
+		okRecv := false
+		if fn.Signature.Recv() != nil {
+			okRecv = strings.HasSuffix(strings.TrimPrefix(fn.Signature.Recv().Type().String(), "*"), "ClientStateResponseWriter")
+		}
+		r.Check(okRecv, rule, FuncName(fn), "putClientState() site", posf(c, call), "flushed by a method of the response writer (a write by the handler)", "the queued session/cookie changes are flushed outside the response writer's own methods: a request that failed without writing anything (the default error handler writes nothing) still delivers what it queued before the failure, e.g. the logged-in session of a login whose storage write failed")
+	}
+	if n == 0 {
+		r.Unknown(rule, FuncName(put), "flush sites", "-", "no call of the flush found")
+	}
+}
+
+// errorPathsPutNothing: a request that is about to end with a backend's error
+// does not write session or cookie values on the way out: what a failed step
+// leaves in the session must not be more than what it found (an error handler
+// that writes a 500 flushes it to the client).
+func (c *Ctx) errorPathsPutNothing(rule string) {
+	r := c.R
+	n := 0
+	for _, fn := range c.P.Funcs {
+		if !c.inRepo(fn) || strings.HasSuffix(pkgOf(fn), "/mocks") {
+			continue
+		}
+		for _, op := range c.StateOps(fn) {
+			if op.Op != "put" {
+				continue
+			}
+			at := op.Call.(ssa.Instruction)
+			var errs []ssa.Value
+			for _, f := range FactsAtInstr(at) {
+				rel := f.Rel()
+				if rel.Op == token.NEQ && IsNilConst(rel.Y) && rel.X != nil && IsErrorType(rel.X.Type()) {
+					if call, _ := CallOf(rel.X); call != nil {
+						errs = append(errs, rel.X)
+					}
+				}
+			}
+			if len(errs) == 0 {
+				continue
+			}
+			n++
+			bad := false
+			for _, b := range fn.Blocks {
+				for _, in := range b.Instrs {
+					ret, ok := in.(*ssa.Return)
+					if !ok || len(ret.Results) == 0 || !Reaches(at, ret) {
+						continue
+					}
+					last := ret.Results[len(ret.Results)-1]
+					for _, e := range errs {
+						if carriesErr(e, last, 0) {
+							bad = true
+						}
+					}
+				}
+			}
+			r.Check(!bad, rule, FuncName(fn), "Put"+strings.Title(op.Store)+"("+op.Key+") on an error path", posf(c, op.Call), "the failing path hands the error back without having written state", "a path that ends the request with a backend's error first writes "+op.Store+"["+op.Key+"]: the failed request changes the client's state (restores a dropped code, marks a step done) although the operation did not happen")
+		}
+	}
+	r.Extra["puts_under_error_facts"] = n
+}
+
+// storeBeforeSession: a handler writes the login into the session only after
+// the storage writes of the same function have succeeded. A storer write that
+// follows PutSession(uid) can still fail, and the request then ends with an
+// error while the session it queued says "logged in" (an error handler that
+// writes a 500 delivers it).
+func (c *Ctx) storeBeforeSession(rule string) {
+	r := c.R
+	uid := c.P.ConstString("", "SessionKey")
+	backend := func(call ssa.CallInstruction) bool {
+		n := Callee(call)
+		if _, ok := storerWrites[n]; ok {
+			return true
+		}
+		switch n {
+		case fnAddRemember, fnDelRemember, fnUseRemember:
+			return true
+		}
+		return false
+	}
+	n := 0
+	for _, fn := range c.P.Funcs {
+		if !c.inRepo(fn) || strings.HasSuffix(pkgOf(fn), "/mocks") {
+			continue
+		}
+		for _, op := range c.StateOps(fn) {
+			if op.Op != "put" || op.Store != "session" || !op.Const || op.Key != uid {
+				continue
+			}
+			n++
+			var late ssa.CallInstruction
+			for _, call := range Calls(fn) {
+				if backend(call) && Reaches(op.Call.(ssa.Instruction), call.(ssa.Instruction)) {
+					late = call
+				}
+			}
+			if late != nil {
+				r.Bad(rule, FuncName(fn), "PutSession("+uid+") after the storage writes", posf(c, op.Call), "the session is given the user's identity before "+Callee(late)+" ("+posf(c, late)+") has succeeded: if that write fails the request ends with an error but has already queued a logged-in session")
+			} else {
+				r.Ok(rule, FuncName(fn), "PutSession("+uid+") after the storage writes", posf(c, op.Call), "no storage write of this function follows the session write")
+			}
+		}
+	}
+	if n == 0 {
+		r.Unknown(rule, "ab", "session writes", "-", "no PutSession of the user identity found")
 	}
 }
